@@ -54,6 +54,9 @@ func (fc *FnCtx) findContract(keys []string) *Contract {
 
 func (fc *FnCtx) execCallWith(fr *frame, st *State, c *ssa.CallCommon, fnv Val, args []Val, instr ssa.Value, pos token.Pos) (Val, bool) {
 	anchor := fc.callAnchor(c, fnv)
+	saveArgs := fc.curArgs
+	fc.curArgs = append(append([]Val(nil), args...), fnv)
+	defer func() { fc.curArgs = saveArgs }()
 	fc.pointClauses(st, "before_call", anchor, pos)
 	v, ok := fc.execCallWith1(fr, st, c, fnv, args, instr, pos)
 	if ok {
@@ -367,9 +370,21 @@ func (fc *FnCtx) execCallWith1(fr *frame, st *State, c *ssa.CallCommon, fnv Val,
 	if len(keys) > 0 {
 		name = keys[0]
 	}
-	fc.note("call to %s without contract: heap havocked, result unconstrained", name)
 	fc.uncontracted(name)
-	fc.havocAll(st)
+	if callee != nil {
+		ws := fc.eng.writeSetOf(fc, callee)
+		if ws.all {
+			fc.note("call to %s without contract: heap havocked, result unconstrained", name)
+		} else {
+			fc.note("call to %s without contract: result unconstrained, heap havocked only where the callee (transitively) stores", name)
+		}
+		fc.havocWrites(st, ws)
+	} else {
+		fc.note("dynamic call %s without contract: result unconstrained; may store through its arguments only (assumption)", name)
+		ws := &writeSet{keys: map[string]bool{}}
+		fc.eng.libWrites(fc, c.Signature(), ws)
+		fc.havocWrites(st, ws)
+	}
 	if resTy.Len() == 0 {
 		return Val{Ty: rty, Sort: "Tuple"}, true
 	}
@@ -379,9 +394,35 @@ func (fc *FnCtx) execCallWith1(fr *frame, st *State, c *ssa.CallCommon, fnv Val,
 func (fc *FnCtx) uncontracted(name string) {}
 
 func (fc *FnCtx) havocAll(st *State) {
+	passed := func(ref string) bool {
+		for _, a := range fc.curArgs {
+			if a.T == ref || (a.Addr != nil && a.Addr.Ref == ref) {
+				return true
+			}
+			if a.Clo != nil {
+				for _, b := range a.Clo.bindings {
+					if b.T == ref || (b.Addr != nil && b.Addr.Ref == ref) {
+						return true
+					}
+				}
+			}
+		}
+		return false
+	}
 	for _, k := range fc.hvOrder {
 		h := fc.hv[k]
-		st.heap[k] = fc.sc.Fresh(h.name, h.sort)
+		old := fc.heapGet(st, k)
+		nh := fc.sc.Fresh(h.name, h.sort)
+		// boxes of this activation's own locals keep their content unless their address was passed
+		for _, r := range fc.localBoxes[k] {
+			if !passed(r) {
+				nh = app("store", nh, r, app("select", old, r))
+			}
+		}
+		if nh != "" && !isAtom(nh) {
+			nh = fc.sc.Define(h.name, h.sort, nh)
+		}
+		st.heap[k] = nh
 	}
 	na := fc.sc.Fresh("alloc", "Int")
 	fc.assume(st, app(">=", na, st.alloc))
@@ -607,6 +648,14 @@ func (fc *FnCtx) applyFrame(st *State, env *specEnv, con *Contract) {
 		if con.Pure {
 			return
 		}
+		// a trusted repository function without an assigns clause: its frame is what its body
+		// (transitively) stores to, not "nothing"
+		if con.Trusted && !con.Lib {
+			if fn := fc.eng.allFuncs[con.Name]; fn != nil && len(fn.Blocks) > 0 {
+				fc.havocWrites(st, fc.eng.writeSetOf(fc, fn))
+				return
+			}
+		}
 		// default frame of a contract without assigns clause: nothing but allocation
 		na := fc.sc.Fresh("alloc", "Int")
 		fc.assume(st, app(">=", na, st.alloc))
@@ -781,6 +830,15 @@ func (fc *FnCtx) calleeFrameKeys(c *ssa.CallCommon) (keys []string, all bool) {
 		return nil, true
 	}
 	if !con.HasAssigns {
+		if con.Trusted && !con.Lib && !con.Pure {
+			if fn := fc.eng.allFuncs[con.Name]; fn != nil && len(fn.Blocks) > 0 {
+				ws := fc.eng.writeSetOf(fc, fn)
+				for k := range ws.keys {
+					keys = append(keys, k)
+				}
+				return keys, ws.all
+			}
+		}
 		return nil, false
 	}
 	for _, a := range con.Assigns {
